@@ -129,6 +129,12 @@ func (t *template) Frag(ctx context.Context) iter.Seq[string] {
 					} else {
 						panic(fmt.Sprintf("missing named arg `%s` in %s", name, t.format))
 					}
+				} else {
+					// '@' without a name is not a placeholder: keep it and re-read what follows as plain text
+					if !yield("@") {
+						return
+					}
+					continue
 				}
 
 				if c == '@' {
